@@ -18,6 +18,7 @@ Scenario families (a family = a `fam` string in the scenario):
 """
 from __future__ import annotations
 
+import json
 import decimal
 import itertools
 import math
@@ -226,6 +227,7 @@ def _drive(sc, make_sampler, objective_factory, ev):
         tmp = tempfile.mkdtemp(prefix="c14-", dir=tlc.scratch())
         path = os.path.join(tmp, "s.db" if stkind == "sqlite" else "j.log")
     storage = _mk_storage(stkind, path)
+    common.decoy(storage, (sc.get("seed") or len(json.dumps(sc, sort_keys=True, default=str))) % 3)
     study = optuna.create_study(storage=storage, study_name="s", sampler=make_sampler(sc["seed"]))
     counters = {"j": 0}
     objective = objective_factory(counters, ev)
